@@ -48,7 +48,8 @@ def gen_items(vseed, tier, n):
                                       kinds=["junk", "junk", "subst", "dup"])[0]
                        for _ in range(4)]
         items.append({"family": sc["family"], "text": sc["texts"][v], "recs": sc["recognizers"][v],
-                      "tables": tables, "inputs": inputs})
+                      "tables": tables, "inputs": inputs,
+                      "cyclic": sc["models"][v].is_cyclic()})
         if len(items) % 5 == 0:
             # grammars split over files: same-named symbols in different files, import graphs
             if rng.random() < 0.6:
